@@ -1,4 +1,5 @@
 """C07 - loops, conditionals, macros, constants, scopes and imports mean their expansion: bytes(P) == bytes(expand(P))."""
+import re
 import random
 import time
 
@@ -10,7 +11,8 @@ from ..oracle import certcheck
 
 OPS = ["parse", "codegen", "symbols"]
 KINDS = ["loop", "if", "macro", "const", "brace", "import"]
-KNOBS = {"p_macro": 0.8, "max_macros": 3, "p_loop": 1.0, "p_if": 1.0, "p_import": 0.5, "max_bytes": 400, "top_stmts": 12, "blk_in_loops": False}
+KNOBS = {"p_macro": 0.8, "max_macros": 3, "p_loop": 1.0, "p_if": 1.0, "p_import": 0.5, "max_bytes": 400, "top_stmts": 12, "blk_in_loops": False,
+         "dead_defs_invisible": True, "p_macro_name_clash": 0.15}
 
 
 def build(seed_int, kinds, blk_in_loops=False):
@@ -151,6 +153,23 @@ def shard(idx, n, seed, tier, params):
         o0 = outcome(r0)
         if o0[0] != "ok":
             acc.count("original." + o0[0])
+            # P is rejected: then its expansion must be rejected too (same layout, same references) - a construct that is only
+            # accepted once it is written out by hand does not mean its expansion
+            if o0[0] == "diags":
+                try:
+                    p1, f1 = build(pseed, kinds, bil)
+                except render.SpellError:
+                    continue
+                r1 = probe.ask({"files": f1, "ops": OPS, "opts": {"pc": p1.base_pc}})
+                if outcome(r1)[0] == "ok":
+                    acc.evaluations += 1
+                    tag = "+".join(sorted(kinds))
+                    loopy = "loop" in kinds and any("cannot redefine symbol" in m for m in o0[1])
+                    acc.violation("P-rejected|loop-label-rejected" if loopy else "P-rejected|%s|%s" % (tag, re.sub(r"[0-9]+", "N", str(o0[1][0]))[:40]),
+                                  "expand(P) [%s] assembles, P does not: %s" % (tag, o0[1][:3]),
+                                  {"kinds": kinds, "P": f0, "expanded": f1, "base_pc": p0.base_pc, "seed": pseed})
+                else:
+                    acc.count("both-rejected")
             continue
         try:
             p1, f1 = build(pseed, kinds, bil)
